@@ -213,6 +213,10 @@ func (p *stubObject) OnTerminate() {
 	p.signal.OnTerminate()
 }
 func (p *stubObject) Receive(msg *net.Message, from Channel) error {
+	// only call and post messages run a method
+	if msg.Header.Type != net.Call && msg.Header.Type != net.Post {
+		return nil
+	}
 	from = p.impl.Tracer(msg, from)
 	switch msg.Header.Action {
 	case 0:
